@@ -77,14 +77,13 @@ pub fn draw_params<W: World>(w: &W, n: usize, rng: &mut Rng) -> RunParams {
     let window_ns = *p.pick(&[1 * S, 5 * S, 60 * S, 900 * MS, 3900 * MS, 250 * MS, S + 1, 2 * S - 1, 59_999 * MS + 999_999, 900 * MS + 500_000, MS + 1, 1_500 * MS + 1, 7 * S + 300 * MS, u64::MAX]);
     // u64::MAX stands for Duration::MAX (a window that never ends); scheduling uses a finite stand-in
     let wsched = if window_ns == u64::MAX { 5 * S } else { window_ns };
-    let pool = PoolParams {
-        n,
-        batch,
-        max_proofs,
-        max_buckets: p.range(1, 4) as usize,
-        max_verifies: p.range(1, 9) as usize,
-        window_ns,
-    };
+    // one setting in ten is "unlimited" (the largest representable value): limits that never bind must
+    // behave like no limit, not overflow
+    let unlimited = |p: &mut Rng, v: usize| if p.chance(1, 10) { usize::MAX } else { v };
+    let max_proofs = unlimited(&mut p, max_proofs);
+    let max_buckets = { let v = p.range(1, 4) as usize; unlimited(&mut p, v) };
+    let max_verifies = { let v = p.range(1, 9) as usize; unlimited(&mut p, v) };
+    let pool = PoolParams { n, batch, max_proofs, max_buckets, max_verifies, window_ns };
     let nworld = p.range(6, 28) as usize;
     let mut ids: Vec<usize> = (0..w.corpus_len()).collect();
     p.shuffle(&mut ids);
@@ -499,7 +498,7 @@ pub fn run<B: Backend, W: World>(be: &mut B, w: &W, params: RunParams, seed: u64
                     let pick = |r: &mut Rng| params.world_proofs[r.usize(params.world_proofs.len())];
                     for dt in [wn - 1, wn, wn + 1] {
                         if ws + dt > now {
-                            let burst = fr.range(1, 1 + params.pool.max_verifies as u64);
+                            let burst = fr.range(1, 1 + params.pool.max_verifies.min(9) as u64);
                             for b in 0..burst {
                                 let mutation = if fr.chance(1, 2) { Some(Mutation::FlipPi { idx: fr.usize(w.pi_len()) }) } else { None };
                                 // several arrivals at the same instant: ordered by sequence number
